@@ -63,6 +63,22 @@ def check_dft(cfg):
     return None
 
 
+def check_wavelet(cfg):
+    odl, np = _odl()
+    ndim, axes, cname = cfg['ndim'], tuple(cfg['axes']), cfg['class']
+    sp = odl.uniform_discr([0.0] * ndim, [2.0, 3.0, 5.0][:ndim], [4, 8, 4][:ndim])       # cell sides 0.5, 0.375, 1.25
+    for wname in ('db1', 'db2', 'sym3'):
+        W = odl.trafos.WaveletTransform(sp, wname, nlevels=1, pad_mode='pywt_periodic', axes=axes)
+        op = W if cname == 'WaveletTransform' else W.inverse
+        x = odl.phantom.white_noise(op.domain, seed=3)
+        y = odl.phantom.white_noise(op.range, seed=4)
+        lhs, rhs = op(x).inner(y), x.inner(op.adjoint(y))
+        if abs(lhs - rhs) > 1e-9 * max(1.0, abs(lhs)):
+            return '%s(%s, axes=%s) on uniform_discr(%s, %s, %s): <A x, y> = %r but <x, A.adjoint y> = %r' % (
+                cname, wname, axes, list(sp.min_pt), list(sp.max_pt), sp.shape, lhs, rhs)
+    return None
+
+
 def replay(ob):
     cfg = ob.get('config') or {}
     try:
@@ -70,6 +86,8 @@ def replay(ob):
             bad = check_grid(cfg)
         elif ob['unit'].startswith('dft/'):
             bad = check_dft(cfg)
+        elif ob['unit'].startswith('wavelet-adjoint/'):
+            bad = check_wavelet(cfg)
         else:
             return {'reproduced': False, 'detail': 'no native concretisation for this obligation kind'}
     except Exception as e:
